@@ -10,7 +10,7 @@
 
 const char *const dsim_property = "C11";
 namespace {
-enum { STOP_CALLED = 0, STOP_RETURNED = 1, NJOBS = 2, STOPPER_DONE = 3,
+enum { STOP_CALLED = 0, STOP_RETURNED = 1, NJOBS = 2, STOPPER_DONE = 3, NWORKERS = 4, NSEEN = 5, WORKER_IDS = 10 /* 8 */,
        RAN = 100, CANCELLED = 200, ON_WORKER = 300, KIND = 400, SUBMITTED = 500, FIN = 600 /* waiter side finished */, TOKEN_GONE = 700, HOP_RAN = 800, HOP_CANC = 900 };
 constexpr int MAXJ = 24;
 
@@ -19,6 +19,10 @@ void ran(cocls::thread_pool &pool, int j) {
     if (n != 1) dsim::fail("C11.ran_twice", "job %d executed %ld times", j, n);
     if (dsim::cell_get(CANCELLED + j)) dsim::fail("C11.ran_and_cancelled", "job %d executed after it was cancelled", j);
     if (!is_current(pool)) dsim::fail("C11.not_on_worker", "job %d (kind %ld) executes on a thread that is not a worker of the pool", j, dsim::cell_get(KIND + j));
+    // the pool has exactly the requested number of workers: jobs are seen on at most that many different threads
+    long me = (long)pthread_self(); long nw = dsim::cell_get(NWORKERS), seen = dsim::cell_get(NSEEN); bool known = false;
+    for (long k = 0; k < seen && k < 8; k++) if (dsim::cell_get(WORKER_IDS + (int)k) == me) known = true;
+    if (!known && nw) { if (seen >= nw) dsim::fail("C11.too_many_workers", "job %d runs on a %ld. different thread, the pool was created with %ld worker(s)", j, seen + 1, nw); dsim::cell_set(WORKER_IDS + (int)seen, me); dsim::cell_set(NSEEN, seen + 1); }
     dsim::event("ran", j);
 }
 void cancelled(int j) {
@@ -143,6 +147,7 @@ void dsim_scenario() {
     for (int s = 0; s < nsub; s++) { njobs[s] = 1 + dsim::choose(3); for (int k = 0; k < njobs[s]; k++) { kinds[s][k] = dsim::choose(7); if (kinds[s][k] == 6 && nprivate++) kinds[s][k] = 4; } total += njobs[s]; }     // at most one job with a private pool
     if (stop_mode == 2) kinds[0][0] = 4;
     dsim::plan_note("workers=%d stop_mode=%d", nworkers, stop_mode);
+    dsim::cell_set(NWORKERS, nworkers);
     for (int s = 0; s < nsub; s++) { dsim::plan_note(" S%d:", s); for (int k = 0; k < njobs[s]; k++) dsim::plan_note("%d", kinds[s][k]); }
     std::vector<Pending> (&bare)[3] = bare_store;
     // submitter 0 first hands in a job that waits for the job it hands in next. Only where the pool is stopped after both have run:
